@@ -203,6 +203,9 @@ func cmdVerify(args []string) {
 		}
 	}
 	fmt.Printf("total: %d obligations, %d not discharged, load %.1fs total %.1fs, errors=%v\n", len(rep.Obls), bad, rep.LoadSecs, rep.TotalSecs, rep.Errors)
+	for _, se := range solverErrs {
+		fmt.Println("solver error: " + se)
+	}
 	if *out != "" {
 		b, _ := json.MarshalIndent(rep, "", " ")
 		os.WriteFile(*out, b, 0o644)
